@@ -133,6 +133,7 @@ type VC struct {
 	done           bool
 	retsP          *[]inlRet
 	splitOK        bool
+	knownOpen      map[string]bool
 	rootOf         *VC
 	pending        []branchOut
 	workDir        string
